@@ -155,7 +155,7 @@ impl Prop for C10 {
         false
     }
     fn rule(&self) -> &'static str {
-        "Part A (run indices 0..255, one per first header byte): ALL 256 x 256 two-byte headers, each followed by a complete remainder (extended length, key, payload <= 300 bytes; 16/64-bit length values drawn incl. non-minimal forms) decoded under the read plans {whole, one byte per read, every split point (frames <= 64 bytes) or header/extended-length/key splits + random ones, random chunks, EINTR before reads}, and truncated at EVERY offset (EOF and ConnectionReset). Part B: random frames over FIN x RSV x 6 opcodes x mask off/on(any key) x lengths {0,1,124,125,126,127,128,65534,65535,65536,65537, random <= 1 MiB}: Humphrey's encoder vs the reference encoder, decode of both encodings under the plans, Message::to_frame. Distinct non-trivial case = distinct (header bytes, length class, plan kind) for part A and distinct (opcode, flags, length, mask) for part B; evaluations = decoder/encoder calls."
+        "Part A (run indices 0..255, one per first header byte): ALL 256 x 256 two-byte headers, each followed by a complete remainder (extended length, key, payload <= 300 bytes; 16/64-bit length values drawn incl. non-minimal forms) decoded under the read plans {whole, one byte per read, every split point (frames <= 64 bytes) or header/extended-length/key splits + random ones, random chunks, EINTR before reads}, and truncated at EVERY offset (EOF and ConnectionReset). Part B: random frames over FIN x RSV x 6 opcodes x mask off/on (random keys, the all-zero key, all-ones, single-bit and four-equal-bytes keys) x lengths {0,1,124,125,126,127,128,65534,65535,65536,65537, random <= 1 MiB}: Humphrey's encoder vs the reference encoder, decode of both encodings under the plans, Message::to_frame. Distinct non-trivial case = distinct (header bytes, length class, plan kind) for part A and distinct (opcode, flags, length, mask) for part B; evaluations = decoder/encoder calls."
     }
     fn assumptions(&self) -> Vec<String> {
         vec![
@@ -232,7 +232,22 @@ impl Prop for C10 {
                     fin: rng.chance(1, 2),
                     rsv: [rng.chance(1, 4), rng.chance(1, 4), rng.chance(1, 4)],
                     opcode,
-                    mask: if rng.chance(1, 2) { Some([rng.next_u64() as u8, rng.next_u64() as u8, rng.next_u64() as u8, rng.next_u64() as u8]) } else { None },
+                    mask: if rng.chance(1, 2) {
+                        // any key: random ones, and the ones an "optimisation" would treat specially
+                        Some(match rng.below(8) {
+                            0 => [0, 0, 0, 0],
+                            1 => [0xff; 4],
+                            2 => [0, 0, 0, 1],
+                            3 => [0x80, 0, 0, 0],
+                            4 => {
+                                let b = rng.next_u64() as u8;
+                                [b; 4]
+                            }
+                            _ => [rng.next_u64() as u8, rng.next_u64() as u8, rng.next_u64() as u8, rng.next_u64() as u8],
+                        })
+                    } else {
+                        None
+                    },
                     payload: rng.bytes(len),
                 };
                 let wire = f.encode();
